@@ -709,9 +709,21 @@ class BlePairing(AbstractPairing):
                 iid,
                 value,
             )
+            accessories = self.accessories
+            char = accessories.aid(BLE_AID).characteristics.iid(iid) if accessories else None
+            if char is None or len(decrypted) < 12:
+                # Authentic, but we cannot decode it (characteristic not in our
+                # database or truncated payload): catch up by polling instead
+                logger.debug(
+                    "%s: Encrypted notification for iid %s cannot be decoded, falling back to polling",
+                    self.name,
+                    iid,
+                )
+                self._process_disconnected_events()
+                return
+
             # We had a successful decrypt, so we can update the state_num
             self.description.state_num = gsn
-            char = self.accessories.aid(BLE_AID).characteristics.iid(iid)
 
             results = {(BLE_AID, iid): {"value": from_bytes(char, value)}}
             logger.debug("%s: Received notification: results = %s", self.name, results)
